@@ -3,6 +3,7 @@ C20 — scores, pass/optimal flags and declared best scores are mutually consist
 -/
 import DnaModel.Model.Builtin
 import DnaModel.Props.C10
+import DnaModel.Props.C08
 import Mathlib.Tactic.Linarith
 import Mathlib.Algebra.Order.Ring.Rat
 set_option linter.unusedVariables false
@@ -133,5 +134,120 @@ theorem gc_score_shape (mini maxi : Rat) (fr : List (Nat × Nat)) :
       obtain ⟨p, hp, rfl⟩ := hx
       exact gcBreach_zero _ _ _ (hall p hp).1 (hall p hp).2
     simp only [NumK.neg, NumK.sub, Score.zero, this]; simp
+
+/-! ### more classes: the score is minus a count (or minus a distance), so never above the declared best 0 -/
+
+theorem ofInt_neg_len_le (n : Nat) : (NumK.ofInt (-(n : Int)) : Rat) ≤ 0 := by
+  show ((-(n : Int) : Int) : Rat) ≤ 0
+  have : (-(n : Int)) ≤ 0 := by omega
+  exact_mod_cast this
+
+/-- AvoidStopCodons never scores above 0 -/
+theorem stopCodons_le_best (tbl : Nat) (loc : Loc) (s : Seq) (e : BEval Rat)
+    (h : evaluate (.stopCodons tbl loc) s = some e) : e.score ≤ 0 := by
+  simp only [evaluate] at h
+  split at h
+  · split at h
+    · simp at h
+    · simp only [Option.some.injEq] at h; rw [← h]; exact ofInt_neg_len_le _
+  · simp at h
+
+/-- EnforceTranslation never scores above 0 -/
+theorem translation_le_best (tbl : Nat) (st : StartPolicy) (tr : Seq) (loc : Loc) (s : Seq) (e : BEval Rat)
+    (h : evaluate (.translation tbl st tr loc) s = some e) : e.score ≤ 0 := by
+  simp only [evaluate] at h
+  split at h
+  · split at h
+    · simp at h
+    · split at h
+      · simp at h
+      · simp only [Option.some.injEq] at h; rw [← h]; exact ofInt_neg_len_le _
+  · simp at h
+
+/-- EnforceSequence never scores above 0 -/
+theorem enforceSequence_le_best (sq : Seq) (loc : Loc) (s : Seq) (e : BEval Rat)
+    (h : evaluate (.enforceSequence sq loc) s = some e) : e.score ≤ 0 := by
+  simp only [evaluate] at h
+  split at h
+  · simp at h
+  · split at h
+    · simp at h
+    · split at h
+      · simp at h
+      · simp only [Option.some.injEq] at h; rw [← h]; exact ofInt_neg_len_le _
+
+/-- AvoidChanges without an edit budget (its objective configuration) never scores above 0 -/
+theorem avoidChanges_le_best (target : Seq) (scope : Scope) (s : Seq) (e : BEval Rat)
+    (h : evaluate (.avoidChanges 0 target scope) s = some e) : e.score ≤ 0 := by
+  simp only [evaluate] at h
+  split at h
+  · simp at h
+  · split at h
+    · simp at h
+    · rename_i sub _ _
+      simp only [Option.some.injEq] at h; rw [← h]
+      generalize ((List.range (diffArray sub target).length).filter (fun i => (diffArray sub target)[i]? == some true)).length = k
+      show (0 : Rat) - ((k : Int) : Rat) ≤ 0
+      have : (0 : Rat) ≤ ((k : Int) : Rat) := by exact_mod_cast Int.natCast_nonneg k
+      linarith
+
+/-- AvoidHairpins never scores above 0 -/
+theorem hairpins_le_best (stem window : Nat) (loc : Loc) (s : Seq) (e : BEval Rat)
+    (h : evaluate (.hairpins stem window loc) s = some e) : e.score ≤ 0 := by
+  simp only [evaluate, evaluateHairpins] at h
+  split at h
+  · simp at h
+  · split at h
+    · simp at h
+    · simp only [Option.some.injEq] at h; rw [← h]; exact ofInt_neg_len_le _
+
+/-- EnforcePatternOccurence scores minus the distance to the wanted number of occurrences: never above 0,
+    and exactly 0 when the count is the wanted one -/
+theorem patternOccurence_le_best (pat : Pattern) (occ : Int) (loc : Loc) (s : Seq) (e : BEval Rat)
+    (h : evaluate (.patternOccurence pat occ loc) s = some e) : e.score ≤ 0 := by
+  simp only [evaluate] at h
+  cases hm : pat.findMatches s loc with
+  | none => rw [hm] at h; simp at h
+  | some ms =>
+    rw [hm] at h; simp only [Option.map_some, Option.some.injEq] at h
+    rw [← h]
+    simp only [NumK.neg, NumK.abs, NumK.sub, NumK.ofInt, Score.zero, Score.lt]
+    split <;> rename_i hc <;> simp only [decide_eq_true_eq, not_lt] at hc <;> linarith
+
+/-- windowed or global GC content never scores above 0 -/
+theorem gc_le_best (mini maxi : Rat) (window : Option Nat) (loc : Loc) (s : Seq) (e : BEval Rat)
+    (h : evaluate (.gc mini maxi window loc) s = some e) : e.score ≤ 0 := by
+  simp only [evaluate] at h
+  split at h
+  · simp at h
+  · split at h
+    · simp at h
+    · split at h
+      · simp at h
+      · simp only [Option.some.injEq] at h; rw [← h]
+        exact (gc_score_shape mini maxi _).1
+
+/-! ### goal met completely ⇒ the score is exactly the declared best (0)
+
+For a class with declared best 0 whose score never exceeds 0, "passes" (score ≥ 0) *is* "scores the
+best": the characterisations of passing by the documented goal (C08 / C10) therefore give the second
+half of C20 for these classes. -/
+
+theorem best_of_passes (e : BEval Rat) (hle : e.score ≤ 0) (hp : 0 ≤ e.score) : e.score = 0 := le_antisymm hle hp
+
+/-- AvoidChanges: the region holds the original ⇒ score = best -/
+theorem avoidChanges_goal_met (target : Seq) (a b : Nat) (st : Int) (hst : st ≠ -1) (s : Seq)
+    (hab : a ≤ b) (hb : b ≤ s.length) (hlen : target.length = b - a) (hgoal : win s a (b - a) = target) :
+    ∃ e, evaluate (.avoidChanges (0 : Rat) target (.loc ⟨a, b, st⟩)) s = some e ∧ e.score = 0 := by
+  obtain ⟨e, he, hp⟩ := (C08.avoidChanges_passes_iff target a b st hst s hab hb hlen).2 hgoal
+  exact ⟨e, he, best_of_passes e (avoidChanges_le_best target _ s e he) hp⟩
+
+/-- EnforceSequence: every position holds a nucleotide of its IUPAC letter ⇒ score = best -/
+theorem enforceSequence_goal_met (sq : Seq) (a b : Nat) (st : Int) (hst : st ≠ -1) (s : Seq)
+    (hab : a ≤ b) (hb : b ≤ s.length) (hlen : b - a ≤ sq.length)
+    (hgoal : ∀ i, i < b - a → C08.SeqOk sq (win s a (b - a)) i) :
+    ∃ e, evaluate (.enforceSequence (K := Rat) sq ⟨a, b, st⟩) s = some e ∧ e.score = 0 := by
+  obtain ⟨e, he, hp⟩ := (C08.enforceSequence_passes_iff sq a b st hst s hab hb).2 ⟨hlen, hgoal⟩
+  exact ⟨e, he, best_of_passes e (enforceSequence_le_best sq _ s e he) hp⟩
 
 end Dna.C20
